@@ -69,8 +69,12 @@ type MuxW struct {
 	// Blocked: end B's mux is created with WithBlockedRead and unblocked at a scheduler-chosen moment;
 	// everything written before must still arrive.
 	Blocked bool `json:"blocked,omitempty"`
-	Closers int  `json:"closers"` // concurrent closers of the final orderly close
-	CloseB  bool `json:"close_b"` // final close on end B instead of A
+	// LateOpen (with Blocked): for every stream read at end B on an id not accepted through a listener,
+	// the first payload is written before B has opened the connection; B opens it and only then unblocks
+	// its reader, so the payload must still arrive (what WithBlockedRead is for)
+	LateOpen bool `json:"late_open,omitempty"`
+	Closers  int  `json:"closers"` // concurrent closers of the final orderly close
+	CloseB   bool `json:"close_b"` // final close on end B instead of A
 }
 
 var muxSizes = []int{0, 1, 7, 8, 9, 100, 1000, 4095, 4096, 4097, 65536}
@@ -79,6 +83,7 @@ var muxBigSizes = []int{muxMaxPayload - 1, muxMaxPayload, muxMaxPayload + 1, 2*m
 func muxGen(focus string) func(rng *rand.Rand, conf string, idx int) any {
 	return func(rng *rand.Rand, conf string, idx int) any {
 		w := &MuxW{Focus: focus, Closers: 1 + rng.Intn(3), CloseB: rng.Intn(2) == 0, Blocked: rng.Intn(4) == 0}
+		w.LateOpen = w.Blocked && focus == "C10" && rng.Intn(2) == 0
 		w.Qlen = pick(rng, []int{1, 2, 3, 4, 8, 16, 64, 256})
 		k := 1 + rng.Intn(6)
 		for _, id := range rng.Perm(9)[:k] {
@@ -235,8 +240,22 @@ func muxRun(t *testing.T, wl any, sc SchedCfg) *Result {
 			optsB = append(optsB, multiplex.WithBlockedRead())
 		}
 		mb := multiplex.Multiplex(tb, optsB...)
-		if w.Blocked {
+		late := map[int]*MuxStream{} // id -> stream whose first payload precedes B's Open
+		if w.Blocked && w.LateOpen {
+			isLis := map[int]bool{}
+			for _, id := range w.Listen {
+				isLis[id] = true
+			}
+			for i := range w.Streams {
+				if st := &w.Streams[i]; st.Dir == 0 && !isLis[st.ID] && st.CoOpen == 0 && len(st.Sizes) > 0 && st.Sizes[0] <= muxMaxPayload {
+					late[st.ID] = st
+				}
+			}
+		}
+		if w.Blocked && len(late) == 0 {
 			e.Task("unblock", func() { mb.Unblock(); mb.Unblock() })
+		}
+		if w.Blocked {
 			e.S.Probe("C10.reader-blocked-until-unblock")
 		}
 		muxes := []multiplex.Mux{ma, mb}
@@ -283,6 +302,8 @@ func muxRun(t *testing.T, wl any, sc SchedCfg) *Result {
 				conns[1][id] = c
 			} else if co := coOpen[id]; co != nil {
 				// opened below, by several tasks at once
+			} else if late[id] != nil {
+				// opened below, after the first payload was written
 			} else {
 				c, err := mb.Open(multiplex.ConnID(id))
 				if err != nil {
@@ -319,6 +340,34 @@ func muxRun(t *testing.T, wl any, sc SchedCfg) *Result {
 				conns[1][id] = got[id][st.CoPick]
 			}
 			e.S.Probe("C10.connection-first-opened-by-concurrent-callers")
+		}
+		preWritten := map[string]bool{}
+		if len(late) > 0 {
+			for id, st := range late {
+				id, st := id, st
+				e.Task(fmt.Sprintf("early-writer-%d", id), func() {
+					p := make([]byte, st.Sizes[0])
+					muxStamp(st.ID, st.Dir, 0, p)
+					if n, err := conns[0][id].Write(p); err != nil || n != len(p) {
+						res.Violate(w.Focus+".setup", "early write on %d: %d, %v", id, n, err)
+					}
+				})
+			}
+			if err := e.RunUntil(100000, func() bool { return e.TasksDone() }); err != nil {
+				res.Violate(w.Focus+".setup", "early writes: %v", err)
+				return
+			}
+			for id, st := range late {
+				c, err := mb.Open(multiplex.ConnID(id))
+				if err != nil {
+					res.Violate(w.Focus+".setup", "open %d: %v", id, err)
+					return
+				}
+				conns[1][id] = c
+				preWritten[fmt.Sprintf("%d/%d", st.ID, st.Dir)] = true
+			}
+			e.Task("unblock", func() { mb.Unblock(); mb.Unblock() })
+			e.S.Probe("C10.payload-written-before-the-blocked-end-opened-the-connection")
 		}
 		// second Accept must block until the listener is closed, then return io.EOF
 		accept2 := map[int]*struct {
@@ -378,9 +427,17 @@ func muxRun(t *testing.T, wl any, sc SchedCfg) *Result {
 			}
 			wc, rc := conns[st.Dir][st.ID], conns[1-st.Dir][st.ID]
 			k := key(st.ID, st.Dir)
+			if preWritten[k] {
+				sd.wrote, sd.frames = st.Sizes[0], 1
+				totalFrames++
+			}
 			e.Task("writer-"+k, func() {
 				off := 0
 				for pi, sz := range st.Sizes {
+					if pi == 0 && preWritten[k] {
+						off += sz
+						continue
+					}
 					if st.Reopen > 0 && pi == st.Reopen {
 						e.S.ParkOwned("wgate-reopen:"+k, "writer-"+k, func() bool { return reopened[k] || sd.rdone })
 					}
@@ -808,6 +865,18 @@ func muxRun(t *testing.T, wl any, sc SchedCfg) *Result {
 				}
 			}
 			res.Probe("C11.error-kind-checked")
+		}
+		// an orderly Close of a mux in the middle of the traffic (the only fault of the run): on the end
+		// that closed, readers see end-of-file, not a failure
+		if len(w.Faults) == 1 && w.Faults[0].Kind == "close-mux" {
+			f := w.Faults[0]
+			for _, st := range w.Streams {
+				sd := sides[key(st.ID, st.Dir)]
+				if 1-st.Dir == f.End && sd.rerr != nil && !errors.Is(sd.rerr, io.EOF) {
+					res.Violate("C11.error-kind", "connection %d direction %d: end %d of the mux was closed in an orderly way in mid-traffic but a Read on it reported %v instead of end-of-file", st.ID, st.Dir, f.End, sd.rerr)
+				}
+			}
+			res.Probe("C11.error-kind-after-own-close-checked")
 		}
 		// phase 2: orderly close of one end by several concurrent closers, then of the other
 		first, second := 0, 1
